@@ -281,8 +281,15 @@ def _create_parameter_converters(
   def create_input_converter(
       pc: vz.ParameterConfig,
   ) -> converters.DefaultModelInputConverter:
+    # float64: parameter bounds are Python floats; in float32 a bound above
+    # 3.4e38 (or a range that wide, or a tiny LOG-scaled bound) becomes inf /
+    # 0 and the parameter silently disappears from the suggestions.
     return converters.DefaultModelInputConverter(
-        pc, scale=True, max_discrete_indices=0, onehot_embed=True
+        pc,
+        scale=True,
+        max_discrete_indices=0,
+        onehot_embed=True,
+        float_dtype=np.float64,
     )
 
   return [create_input_converter(pc) for pc in search_space.parameters]
